@@ -539,6 +539,7 @@ type Explorer struct {
 	prefix       []decision
 	trail        []decision
 	vars         []VarInfo
+	pins         []ModelVal // concrete byte strings the harness pins for native replay (verif.Pin)
 	occ          map[string]int
 	nterms       int
 	nvars        int
@@ -582,6 +583,7 @@ func (x *Explorer) startPath(prefix []decision) {
 	x.prefix = prefix
 	x.trail = x.trail[:0]
 	x.vars = x.vars[:0]
+	x.pins = nil
 	x.occ = map[string]int{}
 	x.nterms, x.nvars = 0, 0
 	x.events = nil
@@ -884,6 +886,9 @@ func (x *Explorer) labelStat(label string) *LabelStat {
 
 func (x *Explorer) model() []ModelVal {
 	if len(x.vars) == 0 {
+		if len(x.pins) > 0 {
+			return append([]ModelVal{}, x.pins...)
+		}
 		return nil
 	}
 	names := make([]string, len(x.vars))
@@ -908,7 +913,7 @@ func (x *Explorer) model() []ModelVal {
 		}
 		out[i] = mv
 	}
-	return out
+	return append(out, x.pins...)
 }
 
 // renderedEvents substitutes model values for symbolic event arguments. Needs a model.
